@@ -1,9 +1,9 @@
 SPECIFICATION Spec
 CONSTANTS
-  P = 55441
-  BigN = 55440
-  GRe = 28469
-  GIm = 52406
+  P = 20161
+  BigN = 20160
+  GRe = 15515
+  GIm = 8338
   G <- GPair
   MaxLen = 200
 INVARIANT Inv
